@@ -387,3 +387,38 @@ Proof.
   { apply (swaps_closed different_issuers (fun l => In l xb_all) xb_closed _ _ S). left. reflexivity. }
   pose proof xb_all_fine as F. rewrite forallb_forall in F. apply F. exact HI.
 Qed.
+
+(* ------------------------------------------------------------------------------------------ *)
+(* 5. hazard_free is weaker than the fragment fresh_req of model/Commute.v                      *)
+(* ------------------------------------------------------------------------------------------ *)
+Lemma supplied_in_paths o l : In l (supplied_inputs o) -> In l (op_paths o).
+Proof.
+  destruct o; cbn; try contradiction; intros H; apply in_or_app; left; exact H.
+Qed.
+
+Lemma existsb_false_forall {A} (p : A -> bool) l : (forall x, In x l -> p x = false) -> existsb p l = false.
+Proof.
+  intros H. induction l as [|x l IH]; [reflexivity|]. cbn. rewrite (H x (or_introl eq_refl)). cbn.
+  apply IH. intros y Hy. apply H. right. exact Hy.
+Qed.
+
+Theorem fresh_req_hazard_free o s : fresh_req o s = true -> hazard_free o s = true.
+Proof.
+  unfold fresh_req. intros H. apply andb_true_iff in H as [H HI]. apply andb_true_iff in H as [HP HL].
+  unfold fresh_paths in HP. rewrite forallb_forall in HP.
+  assert (NS : forall l, In l (supplied_inputs o) -> stale (KFile, l) s = false).
+  { intros l Hl. apply negb_true_iff. apply HP. apply supplied_in_paths. exact Hl. }
+  unfold hazard_free, hazards.
+  assert (H1 : hz_stale_volatile_input o s = false).
+  { unfold hz_stale_volatile_input. apply existsb_false_forall. intros l Hl. unfold stale_volatile.
+    rewrite (NS l Hl). reflexivity. }
+  assert (H2 : hz_stale_wired_input o s = false).
+  { unfold hz_stale_wired_input. apply existsb_false_forall. intros l Hl. unfold stale_wired.
+    rewrite (NS l Hl). reflexivity. }
+  assert (H3 : hz_recycle o s = false).
+  { unfold hz_recycle. destruct o; try reflexivity. cbn [fresh_label] in HL. apply negb_true_iff in HL. exact HL. }
+  assert (H4 : hz_detached_issuer o s = false).
+  { unfold hz_detached_issuer. destruct (issuer o) as [c|]; [|reflexivity].
+    unfold attached in HI. apply negb_true_iff in HI. exact HI. }
+  rewrite H1, H2, H3, H4. reflexivity.
+Qed.
